@@ -21,3 +21,7 @@ STRING_READ = {"GET": "bulk", "GETSET": "bulk", "MGET": "array"}
 STRING_OTHER = {"APPEND", "BITCOUNT", "BITFIELD", "BITOP", "BITPOS", "DECR", "DECRBY", "GETBIT", "GETRANGE", "INCR", "INCRBY", "INCRBYFLOAT",
                 "SETBIT", "SETRANGE", "STRLEN"}
 RESP_PREFIX = {"Error": ord("-"), "Simple": ord("+"), "Integer": ord(":"), "Bulk": ord("$"), "Arr": ord("*")}
+
+
+# arity as in the Redis command table (whole RESP array incl. the command name; negative = at least)
+BLOCKING_ARITY = {"Blpop": -3, "Brpop": -3, "Brpoplpush": 4, "Bzpopmin": -3, "Bzpopmax": -3}
